@@ -369,8 +369,11 @@ def map_variables(
     target, variables = variable_groups
     if init:
       scopes = scope_fn((target, variables), rng_groups)
+      # only (re-)initialize when a mapped collection can actually be written
       has_mutable_cols = any(
-        not is_filter_empty(scope.mutable)
+        not is_filter_empty(
+          intersect_filters(scope.mutable, mapped_collections)
+        )
         for scope in jax.tree_util.tree_leaves(scopes)
       )
       if has_mutable_cols:
